@@ -12,7 +12,7 @@ from fractions import Fraction
 import numpy as np
 from hypothesis import strategies as st
 
-from vp.pbt import SubCheck
+from vp.pbt import SubCheck, represent
 
 PROPERTY = "C14"
 RULE = ("cases = (series, timings, missing mask, graph type); exhaustive part "
@@ -89,6 +89,9 @@ def build(case, x=None, t=None):
     arr = np.array([np.nan if v is None else float(v) for v in xs],
                    dtype=np.float64)
     tarr = None if ts is None else np.array(ts, dtype=np.float64)
+    arr = represent(arr)
+    if tarr is not None:
+        tarr = represent(tarr, dtypes=False)
     mv = bool(case.get("mv")) or any(v is None for v in xs)
     return VisibilityGraph(arr, timings=tarr, missing_values=mv,
                            horizontal=bool(case["horizontal"]),
